@@ -183,3 +183,92 @@ Theorem C08_twin_sessions_partial : forall Bf,
   twins Bf o1 o2 mc1 mc2 ts.
 Proof. exact twin_sessions. Qed.
 Print Assumptions C08_twin_sessions_partial.
+
+(* ---- sessions with definitions: the twin may hold its functions at other places ---- *)
+Require Import Calc.StmtDef Calc.StmtMixed Calc.StmtModes Calc.PropC01.
+
+(* two machines whose worlds are related — the same global data, the function names bound on both to
+   functions with the same bodies, wherever their code lies — run any list of definitions and statements:
+   every tree gives the two the same value or error, and their worlds stay related (same global data, same
+   output added, same input left).  B1, B2: the two machines' function tables; FN: the names the session gives
+   to functions. *)
+Theorem C08_twin_sessions_with_definitions_partial : forall FN o1 o2 items B1 B2 mc1 c1 m1 mc2 c2 m2,
+  tabs_ok FN B1 B2 -> tready B1 mc1 c1 m1 -> tready B2 mc2 c2 m2 ->
+  wrel B1 B2 o1 o2 (wof (mc_vm mc1)) (wof (mc_vm mc2)) ->
+  Forall (item_ok2 FN) items ->
+  pair false false o1 o2 B1 B2 mc1 mc2 items.
+Proof. intros FN o1 o2. exact (pair_session FN false false o1 o2). Qed.
+Print Assumptions C08_twin_sessions_with_definitions_partial.
+
+(* so: a statement that fails leaves the world the statement semantics says (its assignments and output up to
+   the failure), the machine ready — and from there every later tree behaves as on any machine that never saw
+   the failing statement but holds that world's global data *)
+Theorem C08_failed_statement_then_any_session_partial :
+  forall FN o1 o2 B1 B2 mc1 c1 m1 mc2 c2 m2 t n W' err rest,
+  tabs_ok FN B1 B2 -> tready B1 mc1 c1 m1 -> tready B2 mc2 c2 m2 ->
+  item_ok2 FN (IStmt t) -> ssem B1 n (wof (mc_vm mc1)) t = Some (W', Fail err) ->
+  wrel B1 B2 o1 o2 W' (wof (mc_vm mc2)) ->
+  Forall (item_ok2 FN) rest ->
+  stuck_m (snd (run_tree false mc1 t)) \/
+  ((exists rep, snd (run_tree false mc1 t) = TError err rep) /\ wof (mc_vm (fst (run_tree false mc1 t))) = W' /\
+   pair false false o1 o2 B1 B2 (fst (run_tree false mc1 t)) mc2 rest).
+Proof. exact failed_then_rest. Qed.
+Print Assumptions C08_failed_statement_then_any_session_partial.
+
+(* the premises are met: a block that assigns, writes and then divides by zero fails on the machine after
+   builtin.Load; the demonstration session of C01 (four definitions, eighteen statements) then runs the same
+   on that machine and on one that never saw the block but holds the assignment and the output *)
+Definition failing_block : node :=
+  NBlock [NAssign (NName "q") (NInt 5); NCall (NName "write") [NStr "seen"]; NBin "/" (NName "q") (NInt 0)].
+Definition twin_assign : node := NAssign (NName "q") (NInt 5).
+Definition twin_write : node := NCall (NName "write") [NStr "seen"].
+(* notations, not definitions: the proofs below must not ask the kernel to unfold a machine *)
+Notation mc_failed := (fst (run_tree false mc_after_first failing_block)).
+Notation mc_never := (fst (run_tree false (fst (run_tree false mc_after_first twin_assign)) twin_write)).
+
+Example C08_demo_failed_then_session :
+  snd (run_tree false mc_after_first failing_block) = TError ErrZeroDiv (match snd (run_tree false mc_after_first failing_block) with TError _ rep => rep | _ => EmptyString end) /\
+  map unfun (map brief (run_all mc_failed (map item_tree demo_items))) =
+  map unfun (map brief (run_all mc_never (map item_tree demo_items))) /\
+  gval (v_globals (mc_vm mc_failed)) "q" = VInt 5 /\
+  v_out (mc_vm (end_of mc_failed (map item_tree demo_items))) = v_out (mc_vm (end_of mc_never (map item_tree demo_items))).
+Proof. split; [|split; [|split]]; vm_compute; reflexivity. Qed.
+
+(* the world the statement semantics gives the failing block *)
+Definition W_failed : world :=
+  match ssem vm_tab 20 (wof (mc_vm mc_after_first)) failing_block with Some (W, _) => W | None => wof (mc_vm mc_after_first) end.
+
+Example C08_demo_failed_then_session_is_covered :
+  ssem vm_tab 20 (wof (mc_vm mc_after_first)) failing_block = Some (W_failed, Fail ErrZeroDiv) /\
+  (stuck_m (snd (run_tree false mc_after_first failing_block)) \/
+   ((exists rep, snd (run_tree false mc_after_first failing_block) = TError ErrZeroDiv rep) /\
+    wof (mc_vm (fst (run_tree false mc_after_first failing_block))) = W_failed /\
+    pair false false [] [] vm_tab vm_tab (fst (run_tree false mc_after_first failing_block)) mc_never demo_items)).
+Proof.
+  assert (HM : ssem vm_tab 20 (wof (mc_vm mc_after_first)) failing_block = Some (W_failed, Fail ErrZeroDiv)) by (vm_compute; reflexivity).
+  split; [exact HM|].
+  destruct C01_vm_start_state_holds as [c [m Hr]].
+  (* the twin: the assignment and the write alone, on the same start *)
+  assert (M1 : exists G, ssem vm_tab 20 (wof (mc_vm mc_after_first)) twin_assign = Some (G, Ok (VInt 5))) by (eexists; vm_compute; reflexivity).
+  destruct M1 as [G1 M1].
+  destruct (tready_after_stmt false vm_tab twin_assign mc_after_first c m 20 G1 _ Hr eq_refl eq_refl M1) as [E1 [c1 [m1 Hr1]]].
+  { intros X. vm_compute in X. discriminate X. }
+  { intros X. vm_compute in X. discriminate X. }
+  assert (M2 : exists G, ssem vm_tab 20 (wof (mc_vm (fst (run_tree false mc_after_first twin_assign)))) twin_write = Some (G, Ok VNil)) by (eexists; vm_compute; reflexivity).
+  destruct M2 as [G2 M2].
+  destruct (tready_after_stmt false vm_tab twin_write _ c1 m1 20 G2 _ Hr1 eq_refl eq_refl M2) as [E2 [c2 [m2 Hr2]]].
+  { intros X. vm_compute in X. discriminate X. }
+  { intros X. vm_compute in X. discriminate X. }
+  assert (HR : wrel vm_tab vm_tab [] [] W_failed (wof (mc_vm mc_never))).
+  { assert (Eg : w_glob W_failed = w_glob (wof (mc_vm mc_never))) by (vm_compute; reflexivity).
+    assert (Eo : w_out W_failed = w_out (wof (mc_vm mc_never))) by (vm_compute; reflexivity).
+    assert (Ei : w_in W_failed = w_in (wof (mc_vm mc_never))) by (vm_compute; reflexivity).
+    constructor.
+    - intros g _. rewrite Eg. reflexivity.
+    - exists (w_out W_failed). rewrite app_nil_r. split; [reflexivity|symmetry; exact Eo].
+    - exact Ei.
+    - intros nm _. rewrite Eg. reflexivity. }
+  assert (Hok : item_ok2 demo_names (IStmt failing_block)) by (split; [split; reflexivity|reflexivity]).
+  exact (failed_then_rest demo_names [] [] vm_tab vm_tab mc_after_first c m mc_never c2 m2 failing_block 20 W_failed ErrZeroDiv demo_items
+           C01_vm_tables_hold Hr Hr2 Hok HM HR C01_demo_items_ok).
+Qed.
